@@ -269,6 +269,87 @@ func sharingHistories(out *caseOut, cfg string, h tree.HashFn, salt int64) {
 	}
 }
 
+// copySubviewHistories: a sub-view of every composite kind is obtained from its parent, copied,
+// and the copy is mutated: the parent (and the value machine's parent) must not notice; then the
+// sub-view itself is mutated: the parent follows, the copy does not.
+func copySubviewHistories(out *caseOut, cfg string, h tree.HashFn, salt int64, n int, withSnaps bool) {
+	g := &gen{r: newRng(salt), noBool: true, maxElem: 5}
+	hg := &histGen{g: g, r: g.r}
+	u8 := &Ty{Kind: "u", N: 1}
+	for k := 0; k < n; k++ {
+		e := g.ty(1 + g.r.Intn(2))
+		for !isComposite(e) {
+			e = g.ty(1 + g.r.Intn(2))
+		}
+		if k%4 == 0 {
+			// unions in particular (their Copy is written separately from the other views)
+			e = &Ty{Kind: "union", None: k%8 == 0, Fields: []*Ty{u8, {Kind: "list", Elem: u8, N: 3}, {Kind: "u", N: 2}}}
+		}
+		var ty *Ty
+		switch k % 3 {
+		case 0:
+			ty = &Ty{Kind: "cont", Fields: []*Ty{e, u8}}
+		case 1:
+			ty = &Ty{Kind: "list", Elem: e, N: 4}
+		default:
+			ty = &Ty{Kind: "vec", Elem: e, N: 2}
+		}
+		v := g.val(ty)
+		if ty.Kind == "list" && len(v.Seq) == 0 {
+			v.Seq = append(v.Seq, g.val(e))
+		}
+		root, err := buildView(ty, v)
+		if err != nil {
+			continue
+		}
+		s := &hstate{h: h, count: &hashCalls}
+		s.push(ty, root)
+		var ops []hop
+		var sb strings.Builder
+		do := func(o hop) string {
+			ops = append(ops, o)
+			r := s.exec(o)
+			fmt.Fprintf(&sb, "s%d=%s ", len(ops)-1, r)
+			if !s.checkSnaps() {
+				fmt.Fprintf(&sb, "snapbad%d=1 ", len(ops)-1)
+			}
+			return r
+		}
+		if !strings.HasPrefix(do(hop{kind: "get", h: 0, i: 0}), "OK_h") {
+			continue
+		}
+		if withSnaps {
+			do(hop{kind: "snap", h: 0})
+			do(hop{kind: "snap", h: 1})
+		}
+		if !strings.HasPrefix(do(hop{kind: "copy", h: 1}), "OK_h") {
+			continue
+		}
+		do(hop{kind: "htr", h: 0})
+		for m := 0; m < 2; m++ {
+			do(retarget(hg, s, hop{h: 2}))
+		}
+		do(hop{kind: "htr", h: 0})
+		do(hop{kind: "ser", h: 0})
+		do(hop{kind: "htr", h: 1})
+		for m := 0; m < 2; m++ {
+			do(retarget(hg, s, hop{h: 1}))
+		}
+		do(hop{kind: "htr", h: 0})
+		do(hop{kind: "ser", h: 0})
+		do(hop{kind: "htr", h: 2})
+		do(hop{kind: "ser", h: 2})
+		do(hop{kind: "htr", h: 1})
+		obs := sb.String()
+		if s.checkSnaps() {
+			obs += "snaps=ok"
+		} else {
+			obs += "snaps=bad"
+		}
+		histCase(out, "subcopy", cfg, ty, v, "ctor", ops, obs)
+	}
+}
+
 func TestC04(t *testing.T) {
 	out := openOut(t, "C04")
 	defer out.close()
@@ -282,6 +363,9 @@ func TestC04(t *testing.T) {
 				exhaustiveHistories(out, cfg, h, ml, nil)
 			}
 			boundaryHistories(out, cfg, h, int64(440+ci), false)
+			if ci == 0 {
+				copySubviewHistories(out, cfg, h, 460, n/2, false)
+			}
 			randomHistories(out, "rand", cfg, h, int64(400+ci), n, func(g *gen) *histGen { return &histGen{g: g, r: g.r} })
 		})
 	}
@@ -419,6 +503,7 @@ func TestC05(t *testing.T) {
 			return append(o2, hop{kind: "copy", h: 0}, hop{kind: "snap", h: 0})
 		})
 		boundaryHistories(out, "sha", h, 540, true)
+		copySubviewHistories(out, "sha", h, 560, n/2, true)
 		sharingHistories(out, "sha!", h, 550)
 		randomHistories(out, "rand", "sha!", h, 500, n, func(g *gen) *histGen { return &histGen{g: g, r: g.r, snaps: true} })
 	})
@@ -464,6 +549,21 @@ func TestC06(t *testing.T) {
 		boundaryHistories(out, "sha", h, 640, false)
 		sharingHistories(out, "sha!", h, 650)
 		randomHistories(out, "rand", "sha!", h, 600, n, func(g *gen) *histGen { return &histGen{g: g, r: g.r, memos: true, snaps: true} })
+	})
+	// tree level: a Setter link applied twice with a root request in between (the nodes the link
+	// builds when it is made must not be reused by its applications)
+	withCfg("sha", func(h tree.HashFn) {
+		leaf := &tshape{kind: "L", data: []byte{0xaa, 1, 2, 3}}
+		for d := 1; d <= 5; d++ {
+			zs := &tshape{kind: "Z", d: d}
+			mixed := &tshape{kind: "P", l: &tshape{kind: "Z", d: d - 1}, r: &tshape{kind: "L", data: []byte{9}}}
+			for g := uint64(2); g < uint64(1)<<uint(d+1); g++ {
+				out.emit("link2", "c11", []string{zs.Sexp(), "set2", hx(g), "1", leaf.Sexp()}, c11Obs(zs, "set2", g, true, leaf, h))
+				if d > 1 {
+					out.emit("link2", "c11", []string{mixed.Sexp(), "set2", hx(g), "1", leaf.Sexp()}, c11Obs(mixed, "set2", g, true, leaf, h))
+				}
+			}
+		}
 	})
 	// the same with a hash function whose roots are mostly zero bytes
 	withCfg("zwin", func(h tree.HashFn) {
@@ -650,6 +750,7 @@ func TestC14(t *testing.T) {
 				s.push(ty, cp)
 				var ops []hop
 				var sb strings.Builder
+				auxOK := true
 				for k := 0; k < 40; k++ {
 					o := hg.next(s)
 					if o.kind == "memo" {
@@ -660,13 +761,23 @@ func TestC14(t *testing.T) {
 					// concurrent use of the package-level hash and of type defaults
 					_ = tree.Hash(tree.Root{1}, tree.Root{2})
 					_ = ty.Def().DefaultNode()
+					// ... and of the shared type definition as a decoder: the fork's current
+					// value goes through bytes and must come back with the same root
+					if k%8 == 7 {
+						if data, err := serializeView(s.views[0]); err == nil {
+							back, err := deserialize(ty, data)
+							if err != nil || back.HashTreeRoot(hf) != s.views[0].HashTreeRoot(hf) {
+								auxOK = false
+							}
+						}
+					}
 				}
 				for _, kind := range []string{"htr", "ser"} {
 					o := hop{kind: kind, h: 0}
 					ops = append(ops, o)
 					fmt.Fprintf(&sb, "s%d=%s ", len(ops)-1, s.exec(o))
 				}
-				if s.checkSnaps() {
+				if s.checkSnaps() && auxOK {
 					sb.WriteString("snaps=ok")
 				} else {
 					sb.WriteString("snaps=bad")
